@@ -40,11 +40,12 @@ const (
 	c18evVW      = "ev:c18:vw#"      // + delta of the version written by the last upgrade ("?" unknown)
 	c18evRet     = "ev:c18:ret#"     // + delta of the returned value
 	c18evRetUnk  = "ev:c18:retUnknown"
-	c18evFn1     = "ev:c18:fn1"     // the function parameter has been called
-	c18evFn2     = "ev:c18:fn2"     // … more than once
-	c18evWrapped = "ev:c18:wrapped" // a closure was handed to a lock wrapper on this path
-	c18evSeeded  = "ev:c18:seeded"  // (closure analysis) the entry state has been installed
-	c18dPrefix   = "ev:c18:d:"      // + render + "#" + delta
+	c18evFn1     = "ev:c18:fn1"      // the function parameter has been called
+	c18evFn2     = "ev:c18:fn2"      // … more than once
+	c18evWrapped = "ev:c18:wrapped"  // a closure was handed to a lock wrapper on this path
+	c18evLockRes = "ev:c18:lockres:" // + nil-ness key of the value holding the result of an error-returning lock function
+	c18evSeeded  = "ev:c18:seeded"   // (closure analysis) the entry state has been installed
+	c18dPrefix   = "ev:c18:d:"       // + render + "#" + delta
 	c18stPrefix  = "ev:c18:status:"
 )
 
@@ -81,30 +82,34 @@ type c18sum struct {
 	res  *flow.Result
 	cons string
 
-	noreturn    bool
-	obj, ver    int // uniform counts over live return exits; -1 = path dependent
-	verFirst    bool
-	hdr         bool        // every live return exit has set the version header
-	hdrBad      *flow.State // the header is set to something else than the version written
-	hdrSeen     bool
-	w           c18dv // value written to the version key (base r = version read, p<i> = parameter i)
-	wKnown      bool
-	errAll      bool             // every live return exit has sent an API error response
-	errMixed    bool             // some do, some do not
-	statuses    []string         // status codes sent on every exit (errAll)
-	statusParam int              // index of the parameter forwarded as status code (-1 = none)
-	objRead     bool             // reads the config-object key space (directly or through a callee)
-	verRead     bool             // reads the config version key (directly or through a callee)
-	wrapParam   int              // index of the func parameter this function runs exactly once with the cluster lock held (-1: not a lock wrapper)
-	wrapLocked  bool             // … and holds the cluster lock while it runs it
-	bodies      []*ast.BlockStmt // the declaration body and the bodies of closures run through a lock wrapper
-	takesLock   bool
-	ret         c18dv // value returned
-	retKnown    bool
-	sites       []*c18site
-	needs       []*c18site
-	wBad        *flow.State // a version write whose value is not read+1
-	wSeen       bool
+	noreturn     bool
+	obj, ver     int // uniform counts over live return exits; -1 = path dependent
+	verFirst     bool
+	hdr          bool        // every live return exit has set the version header
+	hdrBad       *flow.State // the header is set to something else than the version written
+	hdrSeen      bool
+	w            c18dv // value written to the version key (base r = version read, p<i> = parameter i)
+	wKnown       bool
+	errAll       bool        // every live return exit has sent an API error response
+	errMixed     bool        // some do, some do not
+	statuses     []string    // status codes sent on every exit (errAll)
+	statusParam  int         // index of the parameter forwarded as status code (-1 = none)
+	objRead      bool        // reads the config-object key space (directly or through a callee)
+	verRead      bool        // reads the config version key (directly or through a callee)
+	wrapParam    int         // index of the func parameter this function runs exactly once with the cluster lock held (-1: not a lock wrapper)
+	wrapLocked   bool        // … and holds the cluster lock while it runs it
+	decorParam   int         // index of the func parameter a returned closure runs exactly once (decorator role, -1: none)
+	decorLocked  bool        // … with the cluster lock held
+	unlockUnheld *flow.State // the unlock function is called on a path where the lock is not held
+	unlocks      int
+	bodies       []*ast.BlockStmt // the declaration body and the bodies of closures run through a lock wrapper
+	takesLock    bool
+	ret          c18dv // value returned
+	retKnown     bool
+	sites        []*c18site
+	needs        []*c18site
+	wBad         *flow.State // a version write whose value is not read+1
+	wSeen        bool
 }
 
 type c18apiCtx struct {
@@ -118,6 +123,17 @@ type c18apiCtx struct {
 	unlkFn map[*types.Func]bool
 	hdrKey string
 	respFn *types.Func // HandleAPIError
+	// value references of the package's functions (handler tables, arguments): where, and the call
+	// they are an argument of
+	valueRefs map[*types.Func][]c18valueRef
+	entryLk   map[*types.Func]int // cache of entryLock: 1 locked, 2 not
+}
+
+// c18valueRef is one use of a function as a value.
+type c18valueRef struct {
+	at   ast.Node
+	call *ast.CallExpr // the call it is an argument of (nil otherwise)
+	arg  int
 }
 
 // c18clusterCall returns the method name if call is a dynamic call of a cluster.Cluster method.
@@ -259,7 +275,7 @@ func c18Admin(c *core.Ctx) {
 	}
 	a := &c18apiCtx{c: c, pkg: pkg, decls: map[*types.Func]*ast.FuncDecl{}, sums: map[*types.Func]*c18sum{},
 		inprog: map[*types.Func]bool{}, direct: map[*ast.CallExpr]*c18direct{}, lockFn: map[*types.Func]bool{}, unlkFn: map[*types.Func]bool{},
-		hdrKey: "X-Config-Version"}
+		hdrKey: "X-Config-Version", entryLk: map[*types.Func]int{}}
 	info := pkg.TypesInfo
 	if k, ok := pkg.Types.Scope().Lookup("ConfigVersionKey").(*types.Const); ok {
 		if s, err := strconv.Unquote(k.Val().ExactString()); err == nil {
@@ -318,6 +334,7 @@ func c18Admin(c *core.Ctx) {
 		}
 	}
 	sort.Slice(order, func(i, j int) bool { return a.decls[order[i]].Pos() < a.decls[order[j]].Pos() })
+	a.collectValueRefs()
 
 	// vacuity: the subject writes known today
 	nObj, nVer, nMem, nOther := 0, 0, 0, 0
@@ -561,7 +578,7 @@ func (a *c18apiCtx) summary(fo *types.Func) *c18sum {
 	c := a.c
 	f := flow.NewFunc(a.pkg, fd)
 	c.Count("functions_analysed", 1)
-	s := &c18sum{fo: fo, fd: fd, f: f, cons: declName(a.pkg, fd), statusParam: -1, wrapParam: -1, bodies: []*ast.BlockStmt{fd.Body}}
+	s := &c18sum{fo: fo, fd: fd, f: f, cons: declName(a.pkg, fd), statusParam: -1, wrapParam: -1, decorParam: -1, bodies: []*ast.BlockStmt{fd.Body}}
 	info := a.pkg.TypesInfo
 	dx := &c18dctx{a: a, f: f, params: c18paramIndex(f)}
 
@@ -686,11 +703,28 @@ func (a *c18apiCtx) summary(fo *types.Func) *c18sum {
 			return
 		}
 		if a.lockFn[fo2] {
-			st.Set(c18evS, flow.True)
 			s.takesLock = true
+			if !c18returnsError(fo2) {
+				st.Set(c18evS, flow.True) // returns only when the lock is held
+				return
+			}
+			// Lock() error: the lock is held once the result is known to be nil
+			holder, how := c18resultHolder(fd.Body, call)
+			switch how {
+			case "assign":
+				st.Set(c18evLockRes+f.NilKey(holder), flow.True)
+			case "dropped":
+				// a failed acquisition goes unnoticed: the lock is not known to be held
+			default:
+				st.Set(c18evLockRes+f.NilKey(call), flow.True)
+			}
 			return
 		}
 		if a.unlkFn[fo2] {
+			s.unlocks++
+			if !st.Is(c18evS, flow.True) && c18live(st) && s.unlockUnheld == nil {
+				s.unlockUnheld = st
+			}
 			st.Set(c18evS, flow.False)
 			if st.Is(c18evO1, flow.True) && !st.Is(c18evV1, flow.True) {
 				st.Set(c18evPend, flow.True)
@@ -774,10 +808,31 @@ func (a *c18apiCtx) summary(fo *types.Func) *c18sum {
 			}
 		}
 	}
+	entryLocked := a.entryLock(fo)
 	mkcfg := func(onBlock func(st *flow.State, b *cfg.Block)) flow.Config {
 		return flow.Config{
 			NoHavoc: true,
 			OnBlock: onBlock,
+			Init: func(st *flow.State) {
+				if entryLocked {
+					st.Set(c18evS, flow.True)
+				}
+			},
+			AfterAssume: func(st *flow.State, cond ast.Expr, outcome bool) {
+				for _, kv := range st.Facts() {
+					if !strings.HasPrefix(kv, c18evLockRes) || !strings.HasSuffix(kv, "=T") {
+						continue
+					}
+					k := kv[len(c18evLockRes) : len(kv)-2]
+					switch st.Get(k) {
+					case flow.True:
+						st.Set(c18evS, flow.True)
+						st.Set(kv[:len(kv)-2], flow.Unknown)
+					case flow.False:
+						st.Set(kv[:len(kv)-2], flow.Unknown) // the acquisition failed: not held
+					}
+				}
+			},
 			MayPanic: func(call *ast.CallExpr, callee types.Object) bool {
 				switch o := callee.(type) {
 				case *types.Builtin:
@@ -808,6 +863,33 @@ func (a *c18apiCtx) summary(fo *types.Func) *c18sum {
 	if res == nil {
 		a.sums[fo] = s
 		return s
+	}
+	// decorator role: the function returns a closure that runs a func parameter (locked(h) http.HandlerFunc):
+	// the closure is what matters
+	isDecorator := false
+	if lit := c18returnedLit(fd); lit != nil && len(dx.params) > 0 {
+		fnParam, fnUnlocked = -2, false
+		if lres := analyze(c, f.Lit(lit), mkcfg(nil)); lres != nil && fnParam >= 0 {
+			once, n := true, 0
+			for _, ex := range lres.Exits {
+				if ex.Kind == flow.ExitReturn && c18live(ex.State) {
+					n++
+					if !ex.State.Is(c18evFn1, flow.True) || ex.State.Is(c18evFn2, flow.True) {
+						once = false
+					}
+				}
+			}
+			if once && n > 0 {
+				isDecorator = true
+				s.decorParam = fnParam
+				s.decorLocked = !fnUnlocked && s.takesLock
+				for k, v := range lres.At {
+					res.At[k] = append(res.At[k], v...)
+				}
+				res.Exits = lres.Exits // the obligations of a lock taker (release on every exit) are the closure's
+			}
+		}
+		fnParam = -2
 	}
 	// closures run through a lock wrapper: analysed from the states that reach the wrapper call,
 	// with the lock held; their exits replace the exits that passed through the call
@@ -985,7 +1067,7 @@ func (a *c18apiCtx) summary(fo *types.Func) *c18sum {
 	}
 
 	// lock wrapper role: runs its function parameter exactly once, with the lock held, and does nothing else
-	if fnParam >= 0 && s.obj == 0 && s.ver == 0 && !s.errAll && !s.errMixed {
+	if !isDecorator && fnParam >= 0 && s.obj == 0 && s.ver == 0 && !s.errAll && !s.errMixed {
 		once := liveReturns > 0
 		for _, ex := range res.Exits {
 			if ex.Kind == flow.ExitReturn && c18live(ex.State) &&
@@ -1097,6 +1179,116 @@ func (a *c18apiCtx) summary(fo *types.Func) *c18sum {
 	return s
 }
 
+// c18returnsError reports whether the last result of fo is an error.
+func c18returnsError(fo *types.Func) bool {
+	sig, _ := fo.Type().(*types.Signature)
+	if sig == nil || sig.Results().Len() == 0 {
+		return false
+	}
+	return c18isErrorType(sig.Results().At(sig.Results().Len() - 1).Type())
+}
+
+// c18returnedLit returns the function literal a declaration returns, if its only return statement
+// (outside nested literals) returns exactly one literal.
+func c18returnedLit(fd *ast.FuncDecl) *ast.FuncLit {
+	var lit *ast.FuncLit
+	n := 0
+	ast.Inspect(fd.Body, func(x ast.Node) bool {
+		switch t := x.(type) {
+		case *ast.FuncLit:
+			return false
+		case *ast.ReturnStmt:
+			n++
+			if len(t.Results) == 1 {
+				lit, _ = ast.Unparen(t.Results[0]).(*ast.FuncLit)
+			}
+		}
+		return true
+	})
+	if n != 1 {
+		return nil
+	}
+	return lit
+}
+
+// entryLock reports whether fo is entered with the cluster lock held: it is only ever used as a value,
+// and every such use hands it to a decorator that runs its parameter with the lock held
+// (`Handler: s.locked(s.createObject)` at every registration site).
+func (a *c18apiCtx) entryLock(fo *types.Func) bool {
+	if v, ok := a.entryLk[fo]; ok {
+		return v == 1
+	}
+	a.entryLk[fo] = 2 // (also breaks cycles)
+	refs := a.valueRefs[fo]
+	if len(refs) == 0 {
+		return false
+	}
+	for _, r := range refs {
+		if r.call == nil {
+			return false
+		}
+		d := a.calleeOf(r.call)
+		if d == nil || d == fo {
+			return false
+		}
+		if _, mine := a.decls[d]; !mine {
+			return false
+		}
+		ds := a.summary(d)
+		if ds == nil || ds.decorParam != r.arg || !ds.decorLocked {
+			return false
+		}
+	}
+	a.entryLk[fo] = 1
+	return true
+}
+
+// collectValueRefs records where the functions of the package are used as values.
+func (a *c18apiCtx) collectValueRefs() {
+	a.valueRefs = map[*types.Func][]c18valueRef{}
+	info := a.pkg.TypesInfo
+	for _, file := range a.pkg.Syntax {
+		pm := parentMap(file)
+		ast.Inspect(file, func(n ast.Node) bool {
+			id, ok := n.(*ast.Ident)
+			if !ok {
+				return true
+			}
+			fo, ok := info.Uses[id].(*types.Func)
+			if !ok {
+				return true
+			}
+			if _, mine := a.decls[fo]; !mine {
+				return true
+			}
+			var expr ast.Node = id
+			if sel, ok := pm[id].(*ast.SelectorExpr); ok && sel.Sel == id {
+				expr = sel
+			}
+			for {
+				p, ok := pm[expr].(*ast.ParenExpr)
+				if !ok {
+					break
+				}
+				expr = p
+			}
+			ref := c18valueRef{at: expr}
+			if call, ok := pm[expr].(*ast.CallExpr); ok {
+				if call.Fun == expr {
+					return true // a call, not a value use
+				}
+				for i, arg := range call.Args {
+					if arg == expr {
+						ref.call, ref.arg = call, i
+					}
+				}
+			}
+			a.valueRefs[fo] = append(a.valueRefs[fo], ref)
+			return true
+		})
+	}
+}
+
 // setStatus records the status code handed to the error responder: a constant, or a parameter
 // of the analysed function (a wrapper forwarding its code), or unknown.
 func (a *c18apiCtx) setStatus(st *flow.State, dx *c18dctx, arg ast.Expr) {
@@ -1154,11 +1346,17 @@ func (a *c18apiCtx) lockRules(rel []*types.Func, escapes, external map[*types.Fu
 				c.Undecide("R-C18-3", cons, pos(c, site.call), "made without the lock in this function, which is called from another package")
 			case escapes[fo]:
 				c.Violate("R-C18-3", cons, pos(c, site.call),
-					sprintf("%s performs %s%s without holding the admin server's cluster lock, and %s is installed as a handler / used as a function value (no caller takes the lock for it): concurrent admin mutations are no longer serialised — two requests can both pass the existence check or both read the same version and return the same X-Config-Version", fo.Name(), site.what, c18paren(site.chain), fo.Name()),
+					sprintf("%s performs %s%s without holding the admin server's cluster lock, and %s is installed as a handler / used as a function value"+a.bareUses(fo)+" (no caller takes the lock for it): concurrent admin mutations are no longer serialised — two requests can both pass the existence check or both read the same version and return the same X-Config-Version", fo.Name(), site.what, c18paren(site.chain), fo.Name()),
 					witness(site.bad)...)
 			default:
 				c.Discharge("R-C18-3", cons, pos(c, site.call), "no lock in this helper; it is only ever called directly and each call site is an obligation of its own")
 			}
+		}
+		// the unlock function only where the lock is held
+		if s.unlocks > 0 {
+			c.Check(s.unlockUnheld == nil, "R-C18-3", s.cons+"|Unlock only with the lock held", pos(c, s.fd.Body),
+				"every call of the unlock function (deferred ones included) is reached with the cluster lock held",
+				fo.Name()+" can run the unlock function on a path where the cluster lock is not held (the acquisition failed, or was not made): Unlock then deletes this member's etcd lock key and releases the process-local mutex that ANOTHER request holds, so two later mutations are inside the critical section together", witness(s.unlockUnheld)...)
 		}
 		// release on every exit
 		if s.takesLock {
@@ -1204,11 +1402,15 @@ func (a *c18apiCtx) lockRules(rel []*types.Func, escapes, external map[*types.Fu
 		}
 		var keys []string
 		undecided := false
+		retErr := c18returnsError(fo)
 		for _, q := range acq {
 			holder, how := c18resultHolder(s.fd.Body, q)
-			if how == "assign" {
+			switch {
+			case how == "assign":
 				keys = append(keys, s.f.NilKey(holder))
-			} else if how != "dropped" {
+			case how == "return" && retErr:
+				keys = append(keys, s.f.NilKey(q)) // `return mutex.Lock()`: the result is the acquisition's
+			case how != "dropped":
 				undecided = true
 			}
 		}
@@ -1229,13 +1431,29 @@ func (a *c18apiCtx) lockRules(rel []*types.Func, escapes, external map[*types.Fu
 					ok = true
 				}
 			}
+			if retErr {
+				// Lock() error: a nil result must be the acquisition's nil result
+				r := c18lastResult(ex.Return)
+				direct := false
+				for _, q := range acq {
+					if r != nil && ast.Unparen(r) == ast.Expr(q) {
+						direct = true
+					}
+				}
+				if direct && ex.State.Is(c18evMxL, flow.True) {
+					continue
+				}
+				if r != nil && c18nilOf(s.f, ex.State, r) == flow.False {
+					continue // reports a failure
+				}
+			}
 			if (!ok || !ex.State.Is(c18evMxL, flow.True)) && bad == nil {
 				bad = ex.State
 			}
 		}
 		c.RequireCount("R-C18-3", "returning exits of "+s.cons, n, 1)
 		c.Check(bad == nil, "R-C18-3", s.cons+"|returns only with the cluster mutex acquired", pos(c, s.fd.Body),
-			sprintf("%d returning exit state(s): cluster.Mutex.Lock was called and its error is nil", n),
+			sprintf("%d returning exit state(s): cluster.Mutex.Lock was called and its error is nil (or the error is what is returned)", n),
 			fo.Name()+" can return although cluster.Mutex.Lock failed (timeout, etcd error) or was not called: the handler runs its critical section without the lock", witness(bad)...)
 	}
 	for fo := range a.unlkFn {
@@ -1305,7 +1523,33 @@ func (a *c18apiCtx) entryRoles() map[*types.Func]string {
 						}
 					}
 				case "Handler":
-					switch v := ast.Unparen(kv.Value).(type) {
+					val := ast.Unparen(kv.Value)
+					// Handler: s.locked(s.createObject): the decorated function is the handler
+					for hop := 0; hop < 3; hop++ {
+						if id, ok := val.(*ast.Ident); ok {
+							// a local holding the (decorated) handler
+							if v, ok := info.Uses[id].(*types.Var); ok {
+								if b := c18boundValue(a.pkg, v); b != nil {
+									val = b
+									continue
+								}
+							}
+						}
+						call, ok := val.(*ast.CallExpr)
+						if !ok {
+							break
+						}
+						d := a.calleeOf(call)
+						if d == nil {
+							break
+						}
+						ds := a.sums[d]
+						if ds == nil || ds.decorParam < 0 || ds.decorParam >= len(call.Args) {
+							break
+						}
+						val = ast.Unparen(call.Args[ds.decorParam])
+					}
+					switch v := val.(type) {
 					case *ast.SelectorExpr:
 						h, _ = info.Uses[v.Sel].(*types.Func)
 					case *ast.Ident:
@@ -1834,6 +2078,38 @@ func (s *c18sum) bodyCalls() []*ast.CallExpr {
 	var out []*ast.CallExpr
 	for _, b := range s.bodies {
 		out = append(out, calls(b, false)...)
+	}
+	return out
+}
+
+// bareUses describes the value uses of fo that do not go through a locking decorator.
+func (a *c18apiCtx) bareUses(fo *types.Func) string {
+	var bare []string
+	decorated := 0
+	for _, r := range a.valueRefs[fo] {
+		if r.call != nil {
+			if d := a.calleeOf(r.call); d != nil {
+				if ds := a.sums[d]; ds != nil && ds.decorParam == r.arg && ds.decorLocked {
+					decorated++
+					continue
+				}
+			}
+		}
+		bare = append(bare, pos(a.c, r.at))
+	}
+	if len(bare) == 0 {
+		return ""
+	}
+	out := " at " + strings.Join(bare, ", ")
+	if decorated > 0 {
+		out += sprintf(" — registered there without the locking wrapper that its %d other registration(s) use", decorated)
+	} else {
+		for _, ds := range a.sums {
+			if ds != nil && ds.decorLocked {
+				out += " — registered there bare, while other handlers are registered through " + ds.fo.Name() + "(..), which takes the lock around the handler"
+				break
+			}
+		}
 	}
 	return out
 }
